@@ -146,6 +146,17 @@ def run(ctx):
             run_one(ctx, W4, out4, scripted([('Start',), ('Exit', 0), ('PM', 0), ('Fin', 0), ('Tick',), ('Start',),
                                              ('Exit', 1), ('PM', 1), ('Fin', 1), ('Tick',), ('Start',), ('Tick',)]),
                     terms, 'corpus')
+    # the experiment restarted from a later stage (Controller.initialise marks the skipped components finished):
+    # predicate-only stream shared with C02 (launch guard on the observed states, final states never change)
+    import c02
+    nres = 8 if ctx.tier == 'quick' else 100
+    for i in range(nres):
+        Wr = SC.gen_workflow(rng)
+        nst = max(d['stage'] for d in Wr) + 1
+        if nst >= 2:
+            c02.restart_family(ctx, Wr, SC.gen_outcome(rng, Wr), rng.randint(1, nst - 1), 2)
+    Wr = [SC.comp(), SC.comp(stage=1, sd=['KnownIssue']), SC.comp(stage=1), SC.comp(stage=2, preds=[1, 2]), SC.comp(stage=3, preds=[1])]
+    c02.restart_family(ctx, Wr, {0: ['Success'], 1: ['KnownIssue'], 2: ['Success'], 3: ['Success'], 4: ['Success']}, 1, 6)
     nex = exhaustive_small(ctx, terms, 4 if ctx.tier == 'quick' else 5)
     ctx.count('exhaustive_runs', nex)
     nrand = 200 if ctx.tier == 'quick' else 1500
